@@ -608,35 +608,6 @@ Section Runtime.
   Qed.
 End Runtime.
 
-(* one large object followed by 20000 objects of one byte; eight objects fit into a message (so
-   delivery is owed, I4), nine do not when the large one is among them *)
-Definition cap_witness : list Z := 400000 :: repeat 1 (Z.to_nat 20000).
-Definition cap_limit : Z := 400062.
-Definition cap_h : list Z -> list Z -> option (list Z) := fun _ _ => Some [].
-
-Lemma cap_witness_fits : min_chunks_fit 49 2 cap_limit (map id (@nil Z)) (map id cap_witness) = true.
-Proof. vm_compute. reflexivity. Qed.
-
-Lemma cap_witness_delivered :
-  outcome_ok (synchronize (xmit_size id id 49 2 cap_limit) (stub_sync (Some cap_h)) recalc (sync_fuel (@nil Z) cap_witness) [] cap_witness stub_init) = true.
-Proof. vm_compute. reflexivity. Qed.
-
-Lemma cap_witness_refused cap : In cap [8; 16; 32; 64]%nat ->
-  outcome_ok (synchronize_capped (xmit_size id id 49 2 cap_limit) (stub_sync (Some cap_h)) recalc cap
-                                 (sync_fuel (@nil Z) cap_witness) [] cap_witness stub_init) = false.
-Proof. intros [<-|[<-|[<-|[<-|[]]]]]; vm_compute; reflexivity. Qed.
-
-Theorem retry_cap_refuted : forall cap, In cap [8; 16; 32; 64]%nat ->
-  exists (ws : list Z) (L : Z),
-    0 < L /\ min_chunks_fit 49 2 L (map id (@nil Z)) (map id ws) = true /\
-    outcome_ok (synchronize (xmit_size id id 49 2 L) (stub_sync (Some cap_h)) recalc (sync_fuel (@nil Z) ws) [] ws stub_init) = true /\
-    outcome_ok (synchronize_capped (xmit_size id id 49 2 L) (stub_sync (Some cap_h)) recalc cap (sync_fuel (@nil Z) ws) [] ws stub_init) = false.
-Proof.
-  intros cap Hin. exists cap_witness, cap_limit.
-  split; [reflexivity|]. split; [exact cap_witness_fits|]. split; [exact cap_witness_delivered|].
-  exact (cap_witness_refused cap Hin).
-Qed.
-
 (* ------------------------------------------------------------------ *)
 (** * One request per synchronize call
     For ANY transport, ANY plugin end, ANY recalculation function and ANY fuel (no hypothesis at all):
@@ -956,3 +927,45 @@ Theorem preinstalled_failed_not_activated {P} (sort_plugins : list P -> list P) 
   (forall l x, In x (sort_plugins l) <-> In x l) ->
   (In p (start_plugins sort_plugins sync_ok started) <-> In p started /\ sync_ok p = true).
 Proof. intros Hs. apply start_plugins_spec. assumption. Qed.
+
+(* ------------------------------------------------------------------ *)
+(** * A cap on the retries is wrong: the witness *)
+(* one large object followed by 20000 objects of one byte; eight objects fit into a message (so
+   delivery is owed, I4), nine do not when the large one is among them *)
+Definition cap_witness : list Z := 400000 :: repeat 1 (Z.to_nat 20000).
+Definition cap_limit : Z := 400062.
+Definition cap_h : list Z -> list Z -> option (list Z) := fun _ _ => Some [].
+
+Lemma cap_witness_fits : min_chunks_fit 49 2 cap_limit (map id (@nil Z)) (map id cap_witness) = true.
+Proof. vm_compute. reflexivity. Qed.
+
+Lemma cap_witness_delivered :
+  outcome_ok (synchronize (xmit_size id id 49 2 cap_limit) (stub_sync (Some cap_h)) recalc (sync_fuel (@nil Z) cap_witness) [] cap_witness stub_init) = true.
+Proof.
+  (* not by running the 2501 messages: delivery is owed (I4) and C09_delivers_sizes says it happens *)
+  destruct (delivers_sizes id id 49 2 cap_limit cap_h [] cap_witness (sync_fuel (@nil Z) cap_witness)) as [s [u [st' [E _]]]].
+  - reflexivity.
+  - intros ps cs. discriminate.
+  - exact cap_witness_fits.
+  - reflexivity.
+  - unfold cap_witness, len. cbn [length]. rewrite repeat_length. reflexivity.
+  - apply Nat.le_refl.
+  - rewrite E. reflexivity.
+Qed.
+
+Lemma cap_witness_refused cap : In cap [8; 16; 32; 64]%nat ->
+  outcome_ok (synchronize_capped (xmit_size id id 49 2 cap_limit) (stub_sync (Some cap_h)) recalc cap
+                                 (sync_fuel (@nil Z) cap_witness) [] cap_witness stub_init) = false.
+Proof. intros [<-|[<-|[<-|[<-|[]]]]]; vm_compute; reflexivity. Qed.
+
+Theorem retry_cap_refuted : forall cap, In cap [8; 16; 32; 64]%nat ->
+  exists (ws : list Z) (L : Z),
+    0 < L /\ min_chunks_fit 49 2 L (map id (@nil Z)) (map id ws) = true /\
+    outcome_ok (synchronize (xmit_size id id 49 2 L) (stub_sync (Some cap_h)) recalc (sync_fuel (@nil Z) ws) [] ws stub_init) = true /\
+    outcome_ok (synchronize_capped (xmit_size id id 49 2 L) (stub_sync (Some cap_h)) recalc cap (sync_fuel (@nil Z) ws) [] ws stub_init) = false.
+Proof.
+  intros cap Hin. exists cap_witness, cap_limit.
+  split; [reflexivity|]. split; [exact cap_witness_fits|]. split; [exact cap_witness_delivered|].
+  exact (cap_witness_refused cap Hin).
+Qed.
+
